@@ -128,14 +128,22 @@ def replay(scn):
                         v = A.cell_enc(i["vals"][0], dt)
                     elif i["form"] == "list":
                         v = [A.cell_enc(x, dt) for x in i["vals"]]
+                    elif i["form"] == "masklist":
+                        m0 = np.array([c == i["vals"][0] for c in a_abs["cells"]], dtype=bool).reshape(a.shape)
+                        if form == 1:
+                            m0 = A.DimArray(m0, axes=[x.copy() for x in a.axes])
+                        v = [m0, A.cell_enc(i["vals"][1], dt)]
                     else:
                         v = np.array([c in i["vals"] for c in a_abs["cells"]], dtype=bool).reshape(a.shape)
+                    vrepr = repr(v)
                     if form == 0:
                         res = a.setna(v)
                     else:
                         a.setna(v, inplace=True)
                         res = a
                         before = A.snapshot(a)
+                    if repr(v) != vrepr:
+                        what = "setna modified its argument (the mask / values passed to it): %s -> %s" % (vrepr[:120], repr(v)[:120])
                 else:
                     raise ValueError(op)
             except Exception as e:  # noqa
